@@ -314,7 +314,8 @@ func (g *Gen) recursive(name string, ps []string, d int) *Node {
 		self.NoTCO = false
 	}
 	var rec *Node
-	switch g.R.Intn(6) {
+	nested := false
+	switch g.R.Intn(7) {
 	case 0:
 		rec = CallN("+", g.expr(TInt, d-2), self) // non-tail
 	case 1:
@@ -326,11 +327,31 @@ func (g *Gen) recursive(name string, ps []string, d int) *Node {
 	case 4:
 		rec = Call(Var(name), args()...)
 		rec = CallN("*", Int(2), rec)
+	case 5:
+		// a self call whose argument is again a self call (McCarthy/Ackermann shape); base must be <= 0
+		inner := Call(Var(name), args()...)
+		switch g.R.Intn(4) {
+		case 0:
+			inner = Begin(CallN("trace", Var(p)), inner)
+		case 1:
+			inner = Cond(CallN(">", Var(p), Int(1)), inner, Int(0))
+		case 2:
+			inner = And(Bool(true), inner)
+		}
+		a := []*Node{inner}
+		for range ps[1:] {
+			a = append(a, g.intLit())
+		}
+		rec = Call(Var(name), a...)
+		nested = true
 	default:
 		rec = self // tail position
 	}
 	g.left -= 8
 	base := g.expr(TAny, d-2)
+	if nested {
+		base = Int(-int64(g.R.Intn(2)))
+	}
 	g.pop()
 	return Defn(name, ps, "", Cond(CallN("<=", Var(p), Int(0)), base, rec))
 }
@@ -779,40 +800,70 @@ func (p *Program) UsesAppend() bool {
 }
 
 // ShadowsSelfName reports whether some defn named n calls n in its body while n is bound a second
-// time somewhere in the program (parameter, let/letseq binding, def, set, another defn, fn
-// parameter, inside or outside the defn): the shape on which "self tail call chosen by name at
-// compile time" (KNOWN_FINDINGS tco-by-name) can differ from lexical scoping.
+// time where that can change what n means inside the body: inside the defn (parameter, let/letseq
+// binding, def, set, nested defn, fn parameter) or by a def/set/defn of n anywhere outside it.
+// This is the shape on which "self tail call chosen by name at compile time" (KNOWN_FINDINGS
+// tco-by-name) can differ from lexical scoping.  let bindings and fn parameters outside the defn
+// cannot, and do not count.
 func (p *Program) ShadowsSelfName() bool {
-	binders := map[string]int{}
-	p.Walk(func(n *Node) {
-		switch n.K {
-		case KDef, KSet, KDefn:
-			binders[n.Name]++
-		case KLet, KLetSeq:
-			for _, x := range n.Binds {
-				binders[x]++
-			}
-		}
-		if n.K == KFn || n.K == KDefn {
-			for _, x := range n.Params {
-				binders[x]++
-			}
-			if n.Rest != "" {
-				binders[n.Rest]++
-			}
-		}
-	})
 	found := false
 	p.Walk(func(d *Node) {
-		if d.K != KDefn || binders[d.Name] < 2 {
+		if d.K != KDefn {
 			return
 		}
-		for _, b := range d.Kids {
-			b.Walk(func(n *Node) {
-				if n.K == KCall && n.Kids[0].K == KVar && n.Kids[0].Name == d.Name {
-					found = true
+		name := d.Name
+		inside := map[*Node]bool{}
+		d.Walk(func(n *Node) { inside[n] = true })
+		rebinds, calls := false, false
+		for _, q := range d.Params {
+			if q == name {
+				rebinds = true
+			}
+		}
+		if d.Rest == name {
+			rebinds = true
+		}
+		p.Walk(func(n *Node) {
+			if n == d {
+				return
+			}
+			switch n.K {
+			case KDef, KSet, KDefn:
+				if n.Name == name {
+					rebinds = true
 				}
-			})
+			}
+			if !inside[n] {
+				return
+			}
+			switch n.K {
+			case KLet, KLetSeq:
+				for _, x := range n.Binds {
+					if x == name {
+						rebinds = true
+					}
+				}
+			case KFn, KDefn:
+				for _, x := range n.Params {
+					if x == name {
+						rebinds = true
+					}
+				}
+				if n.Rest == name {
+					rebinds = true
+				}
+			case KFor:
+				if len(n.Kids) > 0 && n.Kids[0].K == KDef && n.Kids[0].Name == name {
+					rebinds = true
+				}
+			case KCall:
+				if n.Kids[0].K == KVar && n.Kids[0].Name == name {
+					calls = true
+				}
+			}
+		})
+		if rebinds && calls {
+			found = true
 		}
 	})
 	return found
